@@ -378,6 +378,31 @@ func c09c(c *Ctx) {
 			c.Check(ok && sawLit && sawEmpty, fmt.Sprintf("format/string-type#%d", n), c.W.Pos(r.Pos()), "string type = the prefix token's literal iff a prefix was read", why)
 		}
 		c.Check(n >= 1, "format/string-type", c.W.FuncPos(fn), "format() returns a string type", "no successful return found in parseFormatStringOperator")
+		// ... and the text it hands back is what FormatText laid out, untouched (trimming a final
+		// break code, say, drops something the author wrote)
+		if ft := c.Fn("parser.FontConfig.FormatText"); ft != nil {
+			for i, r := range returnsOf(fn) {
+				if !isSuccessReturn(r) || !c.mayBeSuccessRet(fn, r) || len(r.Results) != 4 {
+					continue
+				}
+				okText := false
+				var leaves []ssa.Value
+				phiLeaves(r.Results[1], map[ssa.Value]bool{}, &leaves)
+				okText = len(leaves) > 0
+				for _, lf := range leaves {
+					ex, isEx := lf.(*ssa.Extract)
+					if !isEx || ex.Index != 0 {
+						okText = false
+						continue
+					}
+					call, isCall := ex.Tuple.(*ssa.Call)
+					if !isCall || callee(call) != ft {
+						okText = false
+					}
+				}
+				c.Check(okText, fmt.Sprintf("format/returns-formatted-text#%d", i), c.W.Pos(r.Pos()), "format() returns the text FormatText produced", "the text returned by format() is "+pretty(c.term(fn, r.Results[1]))+", not simply FormatText's result: part of what the author wrote could be changed after the layout")
+			}
+		}
 	}
 	if fn := c.Fn("parser.Parser.parseTextStatement"); fn != nil {
 		// Value/StringType come from the same call (both phis merge matching results)
@@ -459,6 +484,32 @@ func c09c(c *Ctx) {
 }
 
 func c09d(c *Ctx) {
+	// what the case tables hold: under a case's name, the text and the string type that one call
+	// of parseTextValue returned — both as they are
+	if tc, ptv := c.Fn("parser.Parser.parsePoryswitchTextCases"), c.Fn("parser.Parser.parseTextValue"); tc != nil && ptv != nil {
+		nUpd := 0
+		seen := map[int]bool{}
+		instrs(tc, func(in ssa.Instruction) {
+			mu, ok := in.(*ssa.MapUpdate)
+			if !ok {
+				return
+			}
+			if _, isStr := mu.Value.Type().Underlying().(*types.Basic); !isStr {
+				return
+			}
+			nUpd++
+			ex, isEx := mu.Value.(*ssa.Extract)
+			okV := false
+			if isEx {
+				if call, isCall := ex.Tuple.(*ssa.Call); isCall && callee(call) == ptv && (ex.Index == 0 || ex.Index == 1) {
+					okV = true
+					seen[ex.Index] = true
+				}
+			}
+			c.Check(okV, fmt.Sprintf("text-poryswitch/table-holds-parsed-value#%d", nUpd), c.W.Pos(mu.Pos()), "a case table entry is a result of parseTextValue, unchanged", "a poryswitch text case stores "+pretty(c.term(tc, mu.Value))+", not the text / string type parseTextValue returned: the selected text would differ from the same text written outside a poryswitch")
+		})
+		c.Check(nUpd >= 2 && seen[0] && seen[1], "text-poryswitch/tables", c.W.FuncPos(tc), "text and string type of every case are recorded", fmt.Sprintf("expected the text and the string type of a case to be stored (found %d table updates)", nUpd))
+	}
 	fn := c.Fn("parser.Parser.parsePoryswitchTextStatement")
 	if fn == nil {
 		return
